@@ -171,6 +171,23 @@ def summary_tables_of(snapshot):
   return out
 
 
+def _is_circ(v):
+  return eqv.is_error_cell(v) and len(v) > 1 and v[1] == 'CircularRefError'
+
+
+def formulas_of_snapshot(snapshot):
+  """{(tableId, colId): formula text} from the metadata held in a snapshot."""
+  t = snapshot.get('_grist_Tables')
+  c = snapshot.get('_grist_Tables_column')
+  out = {}
+  if not t or not c:
+    return out
+  for r in c['id']:
+    if c['formula'].get(r):
+      out[(t['tableId'].get(c['parentId'].get(r)), c['colId'].get(r))] = c['formula'].get(r)
+  return out
+
+
 def summary_source_of(snapshot, summary_table_id):
   t = snapshot.get('_grist_Tables')
   if not t:
@@ -306,6 +323,12 @@ def judge_state_diff(ref, obs, full_log, upto):
         return None, labels
     return ('structure:%s:%s' % (tcat, what.replace(' ', '-')), structural[:4]), labels
   real = [x for x in cells if not is_cycle_error_pair(x[3], x[4])]
+  if any(_is_circ(x[3]) != _is_circ(x[4]) for x in real):
+    # one side CircularRefError, the other a value or another error, in a formula that reaches other rows through
+    # lookups / sorted neighbours: whether such a cycle is noticed depends on evaluation order (not judged)
+    fm = formulas_of_snapshot(ref)
+    real = [x for x in real if not (_is_circ(x[3]) != _is_circ(x[4]) and
+                                    CROSS_ROW & set(formula_features(fm.get((x[0], x[1]), ''))))]
   if len(real) < len(cells):
     labels.append('cycle-error-kind-differs(not judged)')
   if not real:
@@ -334,7 +357,7 @@ def judge_state_diff(ref, obs, full_log, upto):
   return ('cells:' + loc, [list(x) for x in real[:6]]), labels
 
 
-def made_formula_then_removed(uas, cells):
+def made_formula_then_removed(uas, cells, kind_of=None):
   """Root cause shared by several undo mismatches: one bundle turns a data column into a formula column
   (ModifyColumn isFormula=True) and, before any recalculation, removes rows of that table or the column itself.
   The undo of the removal does not carry the column's values (it is a formula column by then) and the undo of
@@ -350,6 +373,8 @@ def made_formula_then_removed(uas, cells):
       if (u[0] in ('RemoveRecord', 'BulkRemoveRecord', 'ReplaceTableData') and u[1] == t) or \
          (u[0] == 'RemoveColumn' and u[1] == t and u[2] == c):
         hit.add((t, c))
+  if kind_of is not None:      # dependents (formula cells) of the lost data differ too
+    cells = [x for x in cells if kind_of(x[0], x[1]) != 'formula']
   return bool(cells) and all((x[0], x[1]) in hit for x in cells)
 
 
